@@ -27,7 +27,7 @@ EXPLANATION = ("Theorems (for every number of candidates): a normalised interval
                "prod x_i^(m-1-i) is the product over ordered pairs of x/(x+y) times a constant that does not depend on "
                "the ranking.")
 
-N_QUICK, N_THOROUGH = 500, 6000
+N_QUICK, N_THOROUGH = 500, 18000
 
 
 def gen_supports(rng, n):
